@@ -57,6 +57,8 @@ struct H {
 	forwarded_event: bool,
 	/// chain height when the update_add_htlc was emitted
 	height_added: u32,
+	/// secret of the offerer's revoke_and_ack that made the addition irrevocable
+	committed_by: Option<[u8; 32]>,
 }
 
 #[derive(Default, Clone, Debug)]
@@ -98,6 +100,8 @@ struct Dur {
 	preimage: HashMap<[u8; 32], Vec<u64>>,
 	/// payment hash -> ids of the updates (new holder commitment) that told the monitor the counterparty's claim
 	claimed: HashMap<[u8; 32], Vec<u64>>,
+	/// revocation secret of the counterparty -> id of the update that carried it
+	secret_update: HashMap<[u8; 32], u64>,
 }
 
 pub struct PayMonitor {
@@ -218,7 +222,10 @@ impl Monitor for PayMonitor {
 						VerifStep::PaymentPreimage { payment_preimage, .. } => {
 							d.preimage.entry(sha256::Hash::hash(&payment_preimage.0).to_byte_array()).or_default().push(*update_id);
 						},
-						VerifStep::CommitmentSecret { secret, .. } => secrets.push(*secret),
+						VerifStep::CommitmentSecret { secret, .. } => {
+							secrets.push(*secret);
+							d.secret_update.insert(*secret, *update_id);
+						},
 						VerifStep::HolderCommitment { claimed_preimages, .. } => {
 							for pre in claimed_preimages {
 								d.claimed.entry(sha256::Hash::hash(&pre.0).to_byte_array()).or_default().push(*update_id);
@@ -345,7 +352,7 @@ impl Monitor for PayMonitor {
 				match &e.wire {
 					Wire::Add(m) => {
 						let hash = m.payment_hash.0;
-						let mut h = H { chan: ci, owner: party, id: m.htlc_id, hash, amt: m.amount_msat, cltv: m.cltv_expiry, from: e.from, to: e.to, pay: None, up: None, down: None, fulfil_emitted: false, fulfil_delivered: false, fail_emitted: false, irrevocable_by: None, f5_done: false, forwarded_event: false, height_added: w.chain.height() };
+						let mut h = H { chan: ci, owner: party, id: m.htlc_id, hash, amt: m.amount_msat, cltv: m.cltv_expiry, from: e.from, to: e.to, pay: None, up: None, down: None, fulfil_emitted: false, fulfil_delivered: false, fail_emitted: false, irrevocable_by: None, f5_done: false, forwarded_event: false, height_added: w.chain.height(), committed_by: None };
 						let idx = self.hs.len();
 						// origin?
 						let mut origin = None;
@@ -395,6 +402,36 @@ impl Monitor for PayMonitor {
 								self.hs[ui].down = Some(idx);
 								let u = self.hs[ui].clone();
 								v.rep.count("c02_f1_forward_admissions_checked");
+								// C09 O5: the forward depends on the update that recorded the upstream peer's revocation (the one
+								// that made the upstream HTLC irrevocable): that update and all earlier ones of the upstream channel
+								// must have been reported complete. Indistinguishable twins count together.
+								let twins: Vec<usize> = committed.iter().cloned().filter(|i| self.hs[*i].amt == u.amt && self.hs[*i].cltv == u.cltv).collect();
+								let mut judged = false;
+								let mut durable = false;
+								let mut why = String::new();
+								for t in twins.iter() {
+									let th = &self.hs[*t];
+									if let (Some(sec), false) = (th.committed_by, self.restarted.contains(&e.from)) {
+										let ucid = w.chans[th.chan].chan_id();
+										if let Some(d) = self.dur.get(&(e.from, ucid)) {
+											if let Some(k) = d.secret_update.get(&sec) {
+												judged = true;
+												match d.incomplete.iter().find(|i| **i <= *k) {
+													None => durable = true,
+													Some(inc) => why = format!("upstream chan {} htlc {}: the revocation was recorded by update {}, update {} is still in flight", th.chan, th.id, k, inc),
+												}
+											}
+										}
+									}
+								}
+								if judged {
+									v.rep.count("c09_o5_forwards_judged");
+									if !durable {
+										v.violation("C09", "O5-forward-after-durable", "an HTLC was forwarded before the monitor update that made its upstream HTLC irrevocable (and every earlier one) had been reported complete", format!("node{} forwards on chan {} htlc {}; {}", e.from, ci, m.htlc_id, why));
+									}
+								} else {
+									v.rep.count("c09_o5_forwards_without_a_recorded_revocation");
+								}
 								if u.amt < m.amount_msat || u.amt - m.amount_msat < fee {
 									v.violation("C02", "F1-forward-admission", "downstream amount exceeds upstream amount less the advertised fee", format!("node{}: in {} msat (chan {}), out {} msat (chan {}), advertised fee {}", e.from, u.amt, u.chan, m.amount_msat, ci, fee));
 								}
@@ -497,6 +534,11 @@ impl Monitor for PayMonitor {
 						let newly: Vec<usize> = self.hs.iter().enumerate().filter(|(_, h)| h.chan == ci && h.fulfil_emitted && h.irrevocable_by.is_none() && md.phase(h.owner, h.id) == (HtlcPhase::Resolved { fulfilled: true })).map(|(i, _)| i).collect();
 						for i in newly {
 							self.hs[i].irrevocable_by = Some(secret);
+						}
+						// ... and which additions (offered by the sender of this revocation) became irrevocable?
+						let added: Vec<usize> = self.hs.iter().enumerate().filter(|(_, h)| h.chan == ci && h.from == e.from && h.committed_by.is_none() && md.phase(h.owner, h.id) == HtlcPhase::Committed).map(|(i, _)| i).collect();
+						for i in added {
+							self.hs[i].committed_by = Some(secret);
 						}
 					},
 					_ => {},
